@@ -3,6 +3,7 @@ Q2 baselines are the first record, Q3/Q4 ordering of flagging steps in the dose-
 from __future__ import annotations
 
 import ast
+import re
 
 from sa.cfg import CFG
 from sa.report import AnalysisError
@@ -133,6 +134,7 @@ def run(chk, repo, tier):
                                   'expanded records are not in chronological order and time after dose becomes negative')
     run_more(chk, repo, dm)
     run_q8(chk, repo, dm)
+    run_q9_q10(chk, repo, dm)
 
 
 def run_more(chk, repo, dm):
@@ -243,3 +245,125 @@ def run_q8(chk, repo, dm):
                           f'is given; TAD is computed from `{col}`, which is not that column here', line=e.line,
                           witness='a dose with ADDL > 0 and observations after the first additional dose: their TAD counts from '
                                   'the original dose record')
+
+
+def _first_choice(fnode, choices):
+    """Which of the constant `choices` wins when every look-up succeeds: structured run of the statements that bind a local
+    from `...[<choice>]...` (nested try/except, a for loop over the choices with or without break, an if/elif chain)."""
+    class Done(Exception):
+        pass
+    result = {}
+
+    def value_of(e, env):
+        t = unparse(e)
+        for k, v in env.items():
+            t = re.sub(rf'\b{k}\b', repr(v), t)
+        return t
+
+    def run(stmts, env, in_loop=False):
+        for s_ in stmts:
+            if isinstance(s_, ast.Assign) and len(s_.targets) == 1 and isinstance(s_.targets[0], ast.Name):
+                result[s_.targets[0].id] = value_of(s_.value, env)
+            elif isinstance(s_, ast.Try):
+                r = run(s_.body, env, in_loop)       # every look-up succeeds: handlers not taken
+                if r:
+                    return r
+                r = run(s_.orelse, env, in_loop)
+                if r:
+                    return r
+            elif isinstance(s_, ast.For) and isinstance(s_.iter, (ast.List, ast.Tuple)) and isinstance(s_.target, ast.Name) \
+                    and all(isinstance(e, ast.Constant) for e in s_.iter.elts):
+                broke = False
+                for e in s_.iter.elts:
+                    r = run(s_.body, dict(env, **{s_.target.id: e.value}), True)
+                    if r == 'break':
+                        broke = True
+                        break
+                    if r == 'return':
+                        return r
+                if not broke:
+                    run(s_.orelse, env, in_loop)
+            elif isinstance(s_, ast.For) and isinstance(s_.iter, ast.Name) and s_.iter.id in env \
+                    and isinstance(env[s_.iter.id], (list, tuple)) and isinstance(s_.target, ast.Name):
+                broke = False
+                for v in env[s_.iter.id]:
+                    r = run(s_.body, dict(env, **{s_.target.id: v}), True)
+                    if r == 'break':
+                        broke = True
+                        break
+                    if r == 'return':
+                        return r
+                if not broke:
+                    run(s_.orelse, env, in_loop)
+            elif isinstance(s_, ast.If):
+                # `if cols:` / `if x is not None:` on a look-up that succeeded: taken
+                r = run(s_.body, env, in_loop)
+                if r:
+                    return r
+            elif isinstance(s_, ast.Break):
+                return 'break'
+            elif isinstance(s_, ast.Continue):
+                return None
+            elif isinstance(s_, ast.Return):
+                return 'return'
+        return None
+    env0 = {}
+    # module-level / local tuples of the choices (a named constant for the priority order)
+    run(fnode.body, env0)
+    return result
+
+
+def run_q9_q10(chk, repo, dm):
+    """Q9: observations are identified by MDV, else EVID, else the dose column (first available wins); Q10: a forward fill of a
+    per-record quantity is done per individual"""
+    Q9 = chk.rule('Q9', 'get_observations / get_mdv: with MDV, EVID and a dose column all present the MDV column decides '
+                        '(first choice of the look-up)', floor=1)
+    n = 0
+    for name in ('get_observations', 'get_mdv'):
+        f = dm.functions.get(name)
+        if f is None:
+            raise AnalysisError(f'{name} not found')
+        # statements up to the first use of the label: the look-up prefix
+        prefix = []
+        for s_ in f.node.body:
+            prefix.append(s_)
+            if any(isinstance(c, ast.Constant) and c.value == 'dose' for c in ast.walk(s_)):
+                break
+        res = _first_choice(ast.Module(body=prefix, type_ignores=[]), ('mdv', 'event', 'dose'))
+        cands = {k: v for k, v in res.items() if any(f"'{c}'" in v for c in ('mdv', 'event', 'dose'))}
+        if not cands:
+            continue
+        n += 1
+        for var, v in sorted(cands.items()):
+            ok = "'mdv'" in v
+            chk.instance(Q9, f'{name}: with every column type present `{var}` = {v[:60]}: MDV decides {ok}')
+            if not ok:
+                chk.violation(Q9, dm.rel, name, f'{var} = {v[:80]}',
+                              'with MDV (or EVID) and AMT present the records are classified by a later choice of the look-up: '
+                              'EVID=2/3 and MDV=1 records with AMT=0 count as observations', line=f.node.lineno,
+                              witness='a dataset with EVID and AMT containing an EVID=2 record: get_observations returns it')
+    if n == 0:
+        raise AnalysisError('Q9: look-up of the observation column not recognised in get_observations / get_mdv')
+    Q10 = chk.rule('Q10', 'forward / backward fills in modeling/data.py are applied per individual (on a groupby of the '
+                          'subject column)', floor=1)
+    fills = []
+    for f in dict.values(dm.functions):
+        for c in calls_in(f.node):
+            if isinstance(c.func, ast.Attribute) and (c.func.attr in ('ffill', 'bfill') or (
+                    c.func.attr == 'fillna' and any(k.arg == 'method' for k in c.keywords))):
+                fills.append((f, c))
+    positive = ast.parse("def f(adm, is_dose):\n    return adm.where(is_dose).ffill()").body[0]
+    pos_hit = any(isinstance(c.func, ast.Attribute) and c.func.attr == 'ffill' and 'groupby' not in unparse(c.func.value)
+                  for c in ast.walk(positive) if isinstance(c, ast.Call))
+    chk.instance(Q10, f'modeling/data.py: {len(fills)} fill call(s); positive example recognised: {pos_hit}')
+    if not pos_hit:
+        raise AnalysisError('Q10: positive example not recognised')
+    for f, c in fills:
+        grouped = 'groupby' in unparse(c.func.value)
+        chk.instance(Q10, f'{f.name}: {unparse(c)[:70]} grouped by individual: {grouped}')
+        if not grouped:
+            chk.violation(Q10, dm.rel, f.name, unparse(c)[:100],
+                          'the value of the last record of one individual is carried into the first records of the next',
+                          line=c.lineno,
+                          witness='two individuals, the first ending on route 2, the second starting with observations before '
+                                  'its first dose: they get admid 2')
